@@ -19,8 +19,9 @@ TRUSTED = [
     "abstraction of the parse: a text is represented by its Include/Class descendants in document order "
     "(computed by the harness from the real parse tree with the public AST API, same scan as list_includes / document_link.rs); "
     "distinct Include nodes of a file have distinct ranges (checked on every case)",
-    "`reached` flag of an include statement (does the indexer's traversal arrive there) is set by the generator's templates: "
-    "false only in the body of a foreach whose iterator has no element type (DESIGN appendix D)",
+    "`reached` flag of an include statement (does the indexer's traversal arrive there): true for every well-formed statement form of the generator "
+    "(top level, if / else / let / foreach bodies, nested); for the one syntactically broken form (foreach without an iterator name) it is measured "
+    "on the tree under test with a probe (DESIGN appendix D: such positions are carved out of the not-found clause)",
     "path algebra: theorems hold for every PathAlg with a decidable equality; the tie uses relative paths without '.', '..' or empty segments, "
     "where the segment-list instance coincides with PathBuf::join / Path::parent",
     "salsa returns for a derived query what the query function returns on the current inputs (DESIGN section 2)",
@@ -28,7 +29,7 @@ TRUSTED = [
     "extraction (ExtrOcamlBasic), host_driver.ml, harness hostdrive.rs / MemFs, lib/hostlib.py",
 ]
 
-FORMS = ["inc", "inc_if", "inc_let", "inc_foreach", "inc_deep", "inc_else"]
+FORMS = ["inc", "inc_if", "inc_let", "inc_foreach", "inc_deep", "inc_else", "inc_foreach_unknown"]
 
 
 def fname(i):
@@ -40,7 +41,8 @@ def graph_case(n, edges, variant, rng=None):
        plain    top-level includes + one missing target per file
        nested   includes nested in blocks (cycled forms), each edge twice when i+j is even, an `include ;`
        search   odd files live in inc/ and are found through INCLUDE_DIR; f1 is shadowed by a file next to the root
-       unreach  the edge to the highest target of every file sits in a foreach over an unknown value"""
+       unreach  the edge to the highest target of every file sits in a foreach without an iterator name (syntax error;
+                the indexer does not enter the body)"""
     files = []
     for i in range(n):
         parts = [("decl", "C%d" % i)]
@@ -202,6 +204,7 @@ def run(ctx):
     bindir = vlib.build_harness(False, bins=["hostdrive"])
     fails = vlib.proof_step(ctx, "TG.Props.C16", THEOREMS, ["props/C16.vo"], TRUSTED, translators=[])
     exe = vlib.build_model("host")
+    ctx.cov["unreached_template_reached_on_this_tree"] = H.calibrate(bindir)
     cases, exhaustive, nrand = gen_cases(ctx)
     cases.sort(key=H.case_size)
     res, viol, ties = check_cases(ctx, bindir, exe, cases, "gen")
@@ -237,7 +240,7 @@ def run(ctx):
         "compared": "id table, file_content, resolved_include_map, read_content log, source root, links, not-found diagnostics, outline; AnalysisHost vs own RootDatabase",
     })
     ctx.assumptions += ["static disk during a session", "salsa derived queries are functions of the inputs",
-                        "includes below an early `?` return of the indexer (foreach over a value without element type) are outside the not-found clause (DESIGN appendix D)"]
+                        "includes below an early `?` return of the indexer (syntactically broken enclosing statement, e.g. foreach without an iterator name) are outside the not-found clause (DESIGN appendix D)"]
     found = report(ctx, viol, ties, fails)
     vlib.broken_ties_to_violations(ctx, fails, found)
 
